@@ -802,3 +802,22 @@ Definition ex_signed (signer : Z) (ki : kinfo) : node :=
   El NS_P "Response" ex_response_attrs
      (El NS_A "Issuer" [] [Txt "https://idp/"] :: SigN true "#r1" signer ki ex_unsigned :: tl ex_response_body).
 Definition ex_now : Z := match parse_relaxed "2024-05-17T10:30:30.000000001Z" with Ok t => t + 1 | _ => 0 end.
+
+(* ------------------------------------------------------------------ *)
+(* what the unmarshaller can see of an element: its name and attributes, the character data
+   directly inside it, and its element children other than Signatures - recursively.
+   Comments, the way text is split, and Signature elements are invisible to it. *)
+Fixpoint visible (n : node) : node :=
+  match n with
+  | El ns tag attrs kids =>
+      El ns tag attrs
+        (Txt (chardata kids) ::
+         (fix go (l : list node) : list node :=
+            match l with
+            | [] => []
+            | (El _ t _ _ as k) :: r => if seqb t "Signature" then go r else visible k :: go r
+            | (EncN _ _ _ as k) :: r => k :: go r
+            | _ :: r => go r
+            end) kids)
+  | _ => n
+  end.
